@@ -7,6 +7,7 @@ import (
 	"fmt"
 	"os"
 	"runtime"
+	"runtime/debug"
 	"sort"
 	"strings"
 	"testing"
@@ -25,6 +26,10 @@ import (
 // themselves run in parallel.
 func TestMain(m *testing.M) {
 	runtime.GOMAXPROCS(vlib.EnvInt("C07_GOMAXPROCS", 1))
+	// the live heap is a few MB while every search allocates its pools afresh: with the default
+	// GOGC the collector and the scavenger (madvise, page faults) take 40 % of the CPU time
+	// (exhaustive sample: 5.8 CPU-s at GOGC=100, 3.7 at 400; the heap stays below 40 MB)
+	debug.SetGCPercent(vlib.EnvInt("C07_GOGC", 400))
 	vlib.Main(m)
 }
 
@@ -469,8 +474,8 @@ func queryClasses(q *Q, s *qstat) []string {
 const queriesPerCorpus = 50
 
 func TestC07Corpus(t *testing.T) {
-	// quick: 4 shards x 60 corpora x 50 queries; thorough: 16 shards x 600 corpora
-	vlib.Check(t, 60, 600, func(rt *rapid.T) {
+	// quick: 4 shards x 60 corpora x 50 queries; thorough: 16 shards x 400 corpora
+	vlib.Check(t, 60, 400, func(rt *rapid.T) {
 		p := genPools(rt)
 		corpus := genCorpus(rt, p)
 		m := newModel(corpus.liveDocs())
